@@ -582,7 +582,10 @@ impl RefTerm {
                 ex.col = ColCmp::Exact;
             }
             Cuf(n) => {
+                // "stop at the screen edge": the last real column, wrap-pending left
                 self.col = (self.col + pv(n, 1)).min(cols - 1);
+                self.pending = false;
+                ex.col = ColCmp::Exact;
             }
             Cub(n) => {
                 self.col = self.col.saturating_sub(pv(n, 1));
@@ -619,7 +622,10 @@ impl RefTerm {
                     _ => 1,
                 };
                 let target = self.tabs.iter().filter(|&&t| t > self.col).nth(n - 1).copied();
+                // "... or to the last column when there is none": a real column
                 self.col = target.unwrap_or(cols - 1).min(cols - 1);
+                self.pending = false;
+                ex.col = ColCmp::Exact;
             }
             Cbt(n) => {
                 if self.pending && self.tabs.contains(&(cols - 1)) {
@@ -965,17 +971,14 @@ impl RefTerm {
                 })
                 .collect();
         } else {
-            if self.alt_showing() && sb_len != 0 {
-                return StepRes::Mismatch(format!(
-                    "alternate screen showing but lines() has {} rows above the view",
-                    sb_len
-                ));
-            }
+            // (the alternate screen keeps none: the model never appends there, so any
+            // growth shows as a length mismatch at the operation that caused it)
             if sb_len != self.scrollback.len() {
                 return StepRes::Mismatch(format!(
-                    "scrollback has {} lines, expected {} (expected tail {:?})",
+                    "scrollback has {} lines, expected {}{} (expected tail {:?})",
                     sb_len,
                     self.scrollback.len(),
+                    if self.alt_showing() { " - the alternate screen keeps none" } else { "" },
                     self.scrollback.last().map(|r| r.cells.iter().map(|c| c.0).collect::<String>())
                 ));
             }
@@ -1014,9 +1017,12 @@ impl RefTerm {
                             ));
                         }
                     }
+                    let pen_only = m.cells.len() == r.cells.len()
+                        && m.cells.iter().zip(r.cells.iter()).all(|(a, b)| a.0 == b.0);
                     return StepRes::Mismatch(format!(
-                        "row {}: {:?}, expected {:?}",
+                        "row {}{}: {:?}, expected {:?}",
                         i,
+                        if pen_only { " [pen-only]" } else { "" },
                         r,
                         RowObs {
                             cells: m.cells.clone(),
